@@ -857,6 +857,18 @@ func (g *pgen) matrix(form int) *doc.Node {
 		}
 		m.Map = append(m.Map, doc.P("adjustments", al))
 	}
+	if !m.Has("adjustments") && g.chance(5) {
+		// present-but-empty adjustments
+		if g.chance(2) {
+			e := doc.L()
+			e.Seq = []*doc.Node{}
+			m.Map = append(m.Map, doc.P("adjustments", e))
+			g.feat("matrix:adjustments-empty-list")
+		} else {
+			m.Map = append(m.Map, doc.P("adjustments", doc.Null()))
+			g.feat("matrix:adjustments-null")
+		}
+	}
 	if form >= 7 {
 		g.extras(m, "matrix.extras", map[string]bool{"setup": true, "adjustments": true}, 2)
 		if len(m.Map) == 1 || g.chance(2) {
